@@ -43,7 +43,7 @@ func cmdRun(args []string) {
 	fn := fs.String("func", "", "harness function")
 	params := fs.String("params", "", "k=v,k=v")
 	unwind := fs.Int("unwind", 0, "unwinding bound")
-	solvers := fs.String("solvers", "z3", "comma separated portfolio")
+	solvers := fs.String("solvers", "z3-new,cvc5", "comma separated portfolio")
 	timeout := fs.Int("timeout", 120, "solver timeout (s)")
 	split := fs.Bool("split", false, "one query per outcome")
 	fs.Parse(args)
